@@ -97,6 +97,12 @@ func (r *CopyOnWriteMap[K, V]) ComputeIf(k K, pred func(V) bool, f func() V) V {
 
 	nv := f()
 	r.copyOnWrite(func(om fp.UnsafeGoMap[K, V]) fp.UnsafeGoMap[K, V] {
+		// decide again under the lock: another goroutine may have stored a value since the check above
+		if cur := om.Get(k).FilterNot(pred); cur.IsDefined() {
+			nv = cur.Get()
+			return om
+		}
+
 		nm := fp.UnsafeGoMap[K, V]{}
 
 		for k, v := range om {
@@ -107,7 +113,7 @@ func (r *CopyOnWriteMap[K, V]) ComputeIf(k K, pred func(V) bool, f func() V) V {
 		return nm
 	})
 
-	return r.Get(k).Get()
+	return nv
 }
 
 func (r *CopyOnWriteMap[K, V]) Updated(k K, v V) fp.MapBase[K, V] {
